@@ -105,7 +105,10 @@ class Family:
 def families(quick: bool) -> List[Family]:
     fams: List[Family] = []
     main = [ev(s) for s in shapes(P3, 2, 2)]  # 157 shapes: 0..2 patterns x 1..2 matching parameters over {(A,1),(A,2),(B,1)}
-    fams.append(Family("main", main, 2, "ECU variants, 0..2 patterns of 1..2 parameters over {(A,'1'),(A,'2'),(B,'1')}, lists of <= 2"))
+    if quick:  # 76 shapes: of two patterns at least one has a single parameter
+        main = [c for c in main if len(c["patterns"]) < 2 or min(len(p) for p in c["patterns"]) == 1]
+    fams.append(Family("main", main, 2, "ECU variants, 0..2 patterns of 1..2 parameters over {(A,'1'),(A,'2'),(B,'1')}"
+                       + (" (two-pattern shapes: at least one pattern with a single parameter)" if quick else "") + ", lists of <= 2"))
     # deep shapes: exactly 3 single-parameter patterns / one 3-parameter pattern (plus the plain single patterns to mix with)
     deep = [ev([[a], [b], [c]]) for a in P3 for b in P3 for c in P3] + [ev([[a, b, c]]) for a in P3 for b in P3 for c in P3] + \
         [ev([[a]]) for a in P3]
@@ -115,7 +118,10 @@ def families(quick: bool) -> List[Family]:
     if quick:
         fams.append(Family("triples", tiny, 3, "ECU variants, 7 shapes, lists of <= 3"))
     else:
-        fams.append(Family("triples", small, 3, "ECU variants, 22 shapes (<= 1 pattern of <= 2 parameters, or 2 single-parameter patterns), lists of <= 3"))
+        two = [[P3[0], P3[2]], [P3[1], P3[2]], [P3[2], P3[0]]]
+        medium = small + [ev([t, [c]]) for t in two for c in P3] + [ev([[c], t]) for t in two for c in P3]  # 22 + 18
+        fams.append(Family("triples", medium, 3, "ECU variants, 40 shapes (<= 1 pattern of <= 2 parameters, 2 single-parameter patterns, "
+                           "a two-parameter pattern before/after a single-parameter pattern), lists of <= 3"))
         fams.append(Family("quads", tiny, 4, "ECU variants, 7 shapes, lists of <= 4"))
     # a variant that re-defines service A under the same short name with a different request ("distinct services")
     own_pool = [ev(s) for s in shapes(P3, 1, 2)] + [ev(s, own=["A"]) for s in shapes(P3, 1, 2)]
@@ -187,7 +193,7 @@ def impl_state(m: Any, gen: Any, objs: Sequence[Any]) -> Any:
     except Exception:
         pos = "?"
     try:
-        cache = tuple(sorted((bytes(k).hex(), bytes(v).hex()) for k, v in m.req_resp_cache.items()))
+        cache = tuple(sorted((repr(k), bytes(v).hex()) for k, v in m.req_resp_cache.items()))
         recent = None if m._recent_ident_response is None else bytes(m._recent_ident_response).hex()
         st = m._state.name
     except Exception:
